@@ -336,7 +336,7 @@ class Array(numpy.lib.mixins.NDArrayOperatorsMixin, metaclass=_ArrayMeta):
         # have _Constant figure things out at potentially higher cost.
         if isinstance(value, fractions.Fraction):
             value = float(value)
-        if isinstance(value, (numpy.ndarray, bool, int, float, complex)):
+        if isinstance(value, (numpy.ndarray, numpy.generic, bool, int, float, complex)):
             value = _Constant(value)
         elif not isinstance(value, Array):
             raise ValueError(f'cannot convert {__value!r} to Array: unsupported data type')
